@@ -68,9 +68,6 @@ func init() {
 		"(reflect.rtype).Out":             ext۰reflect۰rtype۰Out,
 		"(reflect.rtype).Size":            ext۰reflect۰rtype۰Size,
 		"(reflect.rtype).String":          ext۰reflect۰rtype۰String,
-		"bytes.Equal":                     ext۰bytes۰Equal,
-		"bytes.IndexByte":                 ext۰bytes۰IndexByte,
-		"fmt.Sprint":                      ext۰fmt۰Sprint,
 		"math.Abs":                        ext۰math۰Abs,
 		"math.Copysign":                   ext۰math۰Copysign,
 		"math.Exp":                        ext۰math۰Exp,
@@ -85,34 +82,13 @@ func init() {
 		"math.Min":                        ext۰math۰Min,
 		"math.NaN":                        ext۰math۰NaN,
 		"math.Sqrt":                       ext۰math۰Sqrt,
-		"os.Exit":                         ext۰os۰Exit,
-		"os.Getenv":                       ext۰os۰Getenv,
 		"reflect.New":                     ext۰reflect۰New,
 		"reflect.SliceOf":                 ext۰reflect۰SliceOf,
 		"reflect.TypeOf":                  ext۰reflect۰TypeOf,
 		"reflect.ValueOf":                 ext۰reflect۰ValueOf,
 		"reflect.Zero":                    ext۰reflect۰Zero,
 		"runtime.Breakpoint":              ext۰runtime۰Breakpoint,
-		"runtime.GC":                      ext۰runtime۰GC,
-		"runtime.GOMAXPROCS":              ext۰runtime۰GOMAXPROCS,
 		"runtime.GOROOT":                  ext۰runtime۰GOROOT,
-		"runtime.Goexit":                  ext۰runtime۰Goexit,
-		"runtime.Gosched":                 ext۰runtime۰Gosched,
-		"runtime.NumCPU":                  ext۰runtime۰NumCPU,
-		"sort.Float64s":                   ext۰sort۰Float64s,
-		"sort.Ints":                       ext۰sort۰Ints,
-		"sort.Strings":                    ext۰sort۰Strings,
-		"strconv.Atoi":                    ext۰strconv۰Atoi,
-		"strconv.Itoa":                    ext۰strconv۰Itoa,
-		"strconv.FormatFloat":             ext۰strconv۰FormatFloat,
-		"strings.Count":                   ext۰strings۰Count,
-		"strings.EqualFold":               ext۰strings۰EqualFold,
-		"strings.Index":                   ext۰strings۰Index,
-		"strings.IndexByte":               ext۰strings۰IndexByte,
-		"strings.Replace":                 ext۰strings۰Replace,
-		"strings.ToLower":                 ext۰strings۰ToLower,
-		"time.Sleep":                      ext۰time۰Sleep,
-		"unicode/utf8.DecodeRuneInString": ext۰unicode۰utf8۰DecodeRuneInString,
 	})
 }
 
